@@ -7,7 +7,7 @@ Trace == ndJsonDeserialize("obs.ndjson")
 VARIABLES l, bad
 tvars == <<l, bad, m, w>>
 TInit == /\ l = 1 /\ bad = <<>>
-         /\ m = <<[name |-> "ID", perm |-> "rw", auto |-> FALSE, key |-> TRUE]>>
+         /\ m = <<[name |-> "ID", perm |-> "rw", auto |-> FALSE, key |-> TRUE, dflt |-> FALSE]>>
          /\ w = [op |-> "update", pay |-> <<>>, sel |-> {}, star |-> FALSE, omit |-> {}]
 
 WSEv ==
@@ -16,7 +16,7 @@ WSEv ==
          wr == [op |-> e.op, pay |-> e.pay, sel |-> ToSet(e.sel), star |-> e.star, omit |-> ToSet(e.omit)]
          keys == {e.model[i].name : i \in {j \in DOMAIN e.model : e.model[j].key}}
          exp == Written(e.model, wr) \ keys        \* the key keeps its value (updates) or is generated (create)
-         isCreate == e.op \in {"create", "create_map"}
+         isCreate == e.op \in {"create", "create_map", "create_slice"}
          got == (IF isCreate THEN ToSet(e.obs.newrow) ELSE ToSet(e.obs.changed)) \ keys
          \* an update whose write set is empty builds no statement: nothing changes
          cols == got = (IF isCreate THEN exp ELSE exp)
